@@ -3,4 +3,4 @@ package main
 func thorough(vd string, c *Ctx, p *Property, res *propResult, ev *Evidence) {
 }
 
-func writeGolden(c *Ctx, path string) error { return nil }
+func writeGolden(c *Ctx, path string) error { return writeGoldenFile(c, path) }
